@@ -79,6 +79,7 @@ theorem symsOf_fns (scope : Nat) (xs : List SeqItem) : (symsOf scope xs).filterM
     | decl s c => by_cases h : s = scope <;> simp [symsOf, declared, h, ih, Sym.fn?]
     | other s k => by_cases h : s = scope <;> simp [symsOf, declared, h, ih, kind_syms_fns]
     | define id => simp [symsOf, declared, ih]
+    | redecl id nd => simp [symsOf, declared, ih]
     | site m x a => simp [symsOf, declared, ih]
     | helper j m a => simp [symsOf, declared, ih]
     | trigger j z => simp [symsOf, declared, ih]
@@ -91,6 +92,7 @@ theorem symsOf_type (scope : Nat) (xs : List SeqItem) : (symsOf scope xs).any Sy
     | decl s c => by_cases h : s = scope <;> simp [symsOf, declaresType, h, ih, Sym.isType]
     | other s k => by_cases h : s = scope <;> simp [symsOf, declaresType, h, ih, kind_syms_type]
     | define id => simp [symsOf, declaresType, ih]
+    | redecl id nd => simp [symsOf, declaresType, ih]
     | site m x a => simp [symsOf, declaresType, ih]
     | helper j m a => simp [symsOf, declaresType, ih]
     | trigger j z => simp [symsOf, declaresType, ih]
@@ -149,6 +151,7 @@ theorem stateAfter_free (st : SeqState) (xs : List SeqItem) :
         · subst h1; simp [ih, symsOf]
         · simp [h0, h1, ih, symsOf]
     | define id => simp [stateAfter, seqStep, ih, symsOf]
+    | redecl id nd => simp [stateAfter, seqStep, ih, symsOf]
     | site m x a => simp [stateAfter, seqStep, ih, symsOf]
     | helper j m a => simp [stateAfter, seqStep, ih, symsOf]
     | trigger j z =>
@@ -169,6 +172,7 @@ theorem stateAfter_intrinsic (st : SeqState) (xs : List SeqItem) :
     | decl s c => simp [stateAfter, seqStep, ih, symsAll]
     | other s k => simp [stateAfter, seqStep, ih, symsAll]
     | define id => simp [stateAfter, seqStep, ih, symsAll]
+    | redecl id nd => simp [stateAfter, seqStep, ih, symsAll]
     | site m x a => simp [stateAfter, seqStep, ih, symsAll]
     | helper j m a => simp [stateAfter, seqStep, ih, symsAll]
     | trigger j z =>
@@ -191,6 +195,7 @@ theorem declared_append (s : Nat) (xs ys : List SeqItem) : declared s (xs ++ ys)
     cases i with
     | decl s' c => by_cases h : s' = s <;> simp [declared, h, ih]
     | define id => simp [declared, ih]
+    | redecl id nd => simp [declared, ih]
     | site m x a => simp [declared, ih]
     | helper j m a => simp [declared, ih]
     | trigger j z => simp [declared, ih]
@@ -209,6 +214,7 @@ theorem stateAfter_method (st : SeqState) (xs : List SeqItem) :
     | decl s c => simp [stateAfter, seqStep, ih]
     | other s k => simp [stateAfter, seqStep, ih]
     | define id => simp [stateAfter, seqStep, ih]
+    | redecl id nd => simp [stateAfter, seqStep, ih]
     | site m x a => simp [stateAfter, seqStep, ih]
     | helper j m a => simp [stateAfter, seqStep, ih]
     | trigger j z =>
@@ -517,6 +523,7 @@ theorem seqStepR_eq {D : List TCand} (hD : (D.map (·.id)).Nodup) (p : SeqPath) 
         · exact ⟨hst.1, push _ hst.2⟩
         · exact hst
   | define id => exact ⟨rfl, rfl, hst, hr⟩
+  | redecl id nd => exact ⟨rfl, rfl, hst, hr⟩
   | helper j m a => exact ⟨rfl, rfl, hst, hr⟩
   | site m x a =>
     obtain ⟨h1, h2⟩ := siteObsR_eq hD x a (st.visible p m) r hr (fun cands hv => visible_sub hst p m cands hv)
@@ -578,6 +585,7 @@ theorem declaredIn_sub (s : Nat) (items : List SeqItem) : ∀ c ∈ declaredIn s
         · exact Or.inr (ih c hc)
       · exact Or.inr (ih c hc)
     | define id => simpa [declaredIn, allDeclared] using ih
+    | redecl id nd => simpa [declaredIn, allDeclared] using ih
     | site m x a => simpa [declaredIn, allDeclared] using ih
     | helper j m a => simpa [declaredIn, allDeclared] using ih
     | trigger j z => simpa [declaredIn, allDeclared] using ih
